@@ -115,3 +115,6 @@ def run(ck: Check) -> None:
         if out != "OK OK":
             ck.violation("verification of a valid envelope fails in a fresh process (depends on what else was imported)",
                          {"preimports": pre, "outcomes": out}, "fresh-process:" + out)
+    # the GPG file path, directed (shared with C08): the fresh entry counts whatever the signer's earlier entry looked like; never a signature beside a payload it was not made over
+    from .. import gpgdirected, impl as _impl
+    gpgdirected.run(ck, _impl, _impl.scratch_dir())
